@@ -87,7 +87,8 @@ where
 {
     let cwd = args[1];
     let root = args[2];
-    let fs = parse_files(args[4]);
+    let mut fs = parse_files(args[4]);
+    fs.cwd = std::path::PathBuf::from(args[1]);
     let written = fs.written.clone();
     let opts: Vec<&str> = if args.len() > 5 { args[5].split(',').collect() } else { vec![] };
     let mut asm = Assembler::new(fs, z);
